@@ -93,6 +93,11 @@ void fp_rdcs_low(dig_t *c, const dig_t *a, const dig_t *m) {
 			_q[first - 1] &= RLC_MASK(b0);
 		}
 		if (sform[len - 2] < 0) {
+			/* The truncated partial result can be in [p, 2^k): reduce it, or the
+			 * modular addition (one conditional subtraction) loses a carry. */
+			while (dv_cmp(_q, m, RLC_FP_DIGS) != RLC_LT) {
+				fp_subn_low(_q, _q, m);
+			}
 			fp_addm_low(r, r, _q);
 		} else {
 			if (k++ % 2 == 0) {
